@@ -314,6 +314,38 @@ CLAIMS = {
              "_read_all frame and read exactly the announced length and raise on end of stream.",
         technique="wire-layout extraction + constant folding of the module-level table + CFG edge dominance + loop-progress rule",
         note="covers all algorithm names because the lookup is a defaulting dictionary access"),
+    "C36": dict(
+        text="Partial: every write_private_key_file reaches the disk only through PKey._write_private_key_file, which creates "
+             "the file with os.open(O_CREAT, mode=0o600) and writes into that descriptor; no other file-creating call "
+             "(builtin open in a write mode, os.open without 0600, chmod-after-create) is reachable from any of them; the "
+             "unencrypted form is chosen exactly under `password is None`. __eq__/__hash__ are functions of _fields, no key "
+             "class overrides them, every _fields mentions only allow-listed public material. asbytes() and the "
+             "constructor agree on field kinds and order for RSA / ECDSA / Ed25519 (keyword arguments in evaluation order), "
+             "the two ECDSA coordinates are encoded by statements identical up to x<->y and padded to the field size; "
+             "fingerprints and base64 derive from asbytes() only. Private-key round trips (library) not decided.",
+        technique="who-may-create over the call-graph closure + constant folding + sibling-statement agreement + writer/reader layout agreement",
+        note="cryptography's serialisation trusted"),
+    "C39": dict(
+        text="Partial: writer/reader agreement for each Message field type (same struct format, reader width = "
+             "calcsize(format), boolean, string length-first, text/list/mpint conversions inverse, adaptive int: long form for "
+             "every n whose plain encoding would start with the 0xff marker, via the bound normaliser); cursor conservation "
+             "of get_remainder / get_so_far / rewind; _add dispatches bool before int, add() in order; sign duality of "
+             "deflate_long / inflate_long (the negative arm is the exact sign-dual of the positive arm). The numeric "
+             "correctness of the inflate/deflate loops for every integer and the empty-string form of zero are value "
+             "properties and are not decided (deflate_long(0) is one zero byte today: noted, not claimed).",
+        technique="writer/reader pair agreement on expanded ASTs + bound normaliser + sibling (sign-dual) arm comparison",
+        note="struct / BytesIO trusted"),
+    "C42": dict(
+        text="Partial - necessary conditions of 'complete and in order': close flushes before marking closed, flush hands the "
+             "whole buffer to _write_all then resets; _write_all advances by exactly the returned count until empty and each "
+             "_write override's count matches what it sent; every assignment to self._rbuffer in read/readline is a "
+             "dominated clear, a paired split, a restitution with the remainder in front of the stash, or a tail append; "
+             "content taken out in full is never also left in the buffer; stream data is appended on the right once; "
+             "channel files use recv/sendall (stderr variants), stdin close flushes before EOF; line-buffered writes go out "
+             "through the LAST newline; _set_mode is evaluated from its AST over the complete quotient of (bufsize class, "
+             "mode-letter subset). The CR/LF logic of readline and content equality are not decided.",
+        technique="buffer-conservation rules on the CFG (dominance, paired slices, concatenation order) + finite-quotient evaluation of _set_mode",
+        note="one listed exception (readline's no-newline return after the truncating break) with its reason"),
     "C03": dict(
         text="Exact decision over a finite abstract domain: the framing arithmetic "
              "of Packetizer._build_packet is interpreted from the current AST for every "
